@@ -7,7 +7,7 @@
 # every change is "the check as it stood" even while the checks are being extended in /verif.
 OUT="$1"
 PREFIX="${2:-}"      # e.g. r2- for a second round
-BASE="19 failed, 452 passed, 13 xfailed, 1 xpassed"
+BASE="19 failed, 452 passed, 12 xfailed, 2 xpassed"
 WT=$(mktemp -d /tmp/harvest-wt.XXXXXX)
 git -C /repo worktree add -q --detach "$WT" HEAD || exit 2
 trap 'git -C /repo worktree remove --force "$WT" >/dev/null 2>&1' EXIT
